@@ -436,6 +436,32 @@ reload:
 					engineErr = true
 				}
 			}
+			// An input whose native run dies outside the harness goroutine (a panic in a goroutine the code under
+			// test started cannot be recovered) takes the whole replay process with it: every input that has no
+			// result yet is replayed again in a process of its own, and a process that ends in a Go panic is
+			// recorded as that panic.
+			for _, it := range items {
+				if it.v != nil && it.v.Kind == "race" {
+					continue
+				}
+				outFile := filepath.Join(inDir, it.base+".out.json")
+				if _, err := os.Stat(outFile); err == nil {
+					continue
+				}
+				out, _ := runGoTestReplayOnly(strings.TrimPrefix(it.pkg, modulePath+"/"), workDir, inDir, it.base)
+				if _, err := os.Stat(outFile); err == nil {
+					continue
+				}
+				if i := strings.Index(out, "\npanic: "); i >= 0 || strings.HasPrefix(out, "panic: ") {
+					rest := out[i+1:]
+					line := strings.TrimPrefix(strings.SplitN(rest, "\n", 2)[0], "panic: ")
+					if len(rest) > 4000 {
+						rest = rest[:4000]
+					}
+					raw, _ := json.Marshal(replayOut{Ran: true, Panic: line + " [the native process died: panic outside the harness goroutine]", Stack: rest})
+					os.WriteFile(outFile, raw, 0o644)
+				}
+			}
 			for _, it := range items {
 				if it.v != nil && it.v.Kind == "race" {
 					out, _ := runGoTestReplayRace(strings.TrimPrefix(it.pkg, modulePath+"/"), workDir, inDir, it.base)
@@ -625,6 +651,15 @@ func runGoTestReplay(rel, workDir, inDir string) (string, error) {
 		"-overlay", filepath.Join(workDir, "overlay.json"), "./"+rel)
 	cmd.Dir = repoRoot
 	cmd.Env = append(goEnv(), "VERIF_REPLAY_DIR="+inDir)
+	out, err := cmd.CombinedOutput()
+	return string(out), err
+}
+
+func runGoTestReplayOnly(rel, workDir, inDir, base string) (string, error) {
+	cmd := exec.Command("go", "test", "-tags", "verif", "-vet=off", "-count=1", "-run", "^TestZZReplay$", "-timeout", "10m",
+		"-overlay", filepath.Join(workDir, "overlay.json"), "./"+rel)
+	cmd.Dir = repoRoot
+	cmd.Env = append(goEnv(), "VERIF_REPLAY_DIR="+inDir, "VERIF_REPLAY_ONLY="+base)
 	out, err := cmd.CombinedOutput()
 	return string(out), err
 }
